@@ -27,6 +27,16 @@ C["C14"] = dict(engine="histmc", cat="model_checking", technique=HIST,
   text="Every nbits in 1..16 the constructors accept x M x nlist x metric x dim: lattice training, every Add/Remove/Flush history up to the bound; codes, scores, ranking and error bound are recomputed from the private codebooks; both Train preconditions probed at their boundary sizes.",
   note=NOTE)
 
+C["C03"] = dict(engine="histmc", cat="model_checking", technique=HIST,
+  text="Every Add/Replace/Remove/Flush history up to the bound over a text alphabet exercising normalisation and segmentation corner cases is executed on the real BM25 index; every (query, k, restriction) and multi-query/aggregation observation is compared with a from-scratch float64 Okapi BM25 over the not-yet-flushed corpus, and the private running totals with the model's.",
+  note=NOTE + " uax29 / x-text NFKC are trusted as the tokeniser and called directly by the oracle.")
+C["C04"] = dict(engine="histmc", cat="model_checking", technique=HIST,
+  text="Every Add/Remove history up to the bound over documents mixing all value kinds; in every state every single filter, its Not(), the empty filter list and every filter tree over a basis of up to 6 distinct-answer filters is compared with direct predicate evaluation.",
+  note=NOTE + " One genuine defect (mixed-sign numeric comparison, root cause in the BSI dependency) is a known finding identified by a witness predicate.")
+C["C05"] = dict(engine="histmc", cat="model_checking", technique=HIST,
+  text="All 8 sub-index configurations x every AddWithID/Add/Remove history up to the bound; in every state every query of the alphabet (vector x text x filter shape x k x fusion x aggregation) is compared with the composed oracle: model filter set, exact filtered k-NN, reference BM25 top-k, fusion rule, ranking.",
+  note=NOTE + " Queries whose per-modality cut falls on a tie are skipped and counted; three ambiguous corners are accepted either way (listed in evidence assumptions).")
+
 NA = {
  "C15": "statistical claim over a continuous distribution (i.i.d. Gaussian data, every seed): no bounded enumerable space represents it; its structural causes are decided by C12/C13/C14/C20",
 }
